@@ -41,6 +41,21 @@ use super::{
     ParserInput,
 };
 
+/// Apply an optional leading minus sign to the magnitude of an integer literal, returning an error
+/// if the resulting value cannot be represented exactly as an `i64`.
+fn signed_integer<'a>(
+    input: ParserInput<'a>,
+    negative: bool,
+    magnitude: u64,
+) -> Result<i64, InternalParseError<'a>> {
+    let value = if negative {
+        0i64.checked_sub_unsigned(magnitude)
+    } else {
+        i64::try_from(magnitude).ok()
+    };
+    value.ok_or_else(|| InternalParseError::from_kind(input, ParserErrorKind::UnsupportedPrecision))
+}
+
 /// Parse the operand of an arithmetic instruction, which may be a literal integer, literal real
 /// number, or memory reference.
 pub(crate) fn parse_arithmetic_operand<'a>(
@@ -57,15 +72,9 @@ pub(crate) fn parse_arithmetic_operand<'a>(
                 ArithmeticOperand::LiteralReal(sign * v)
             },
         ),
-        map(
+        map_res(
             tuple((opt(token!(Operator(Operator::Minus))), token!(Integer(v)))),
-            |(op, v)| {
-                let sign = match op {
-                    None => 1,
-                    Some(()) => -1,
-                };
-                ArithmeticOperand::LiteralInteger(sign * (v as i64))
-            },
+            |(op, v)| signed_integer(input, op.is_some(), v).map(ArithmeticOperand::LiteralInteger),
         ),
         map(parse_memory_reference, ArithmeticOperand::MemoryReference),
     ))(input)
@@ -87,15 +96,9 @@ pub(crate) fn parse_comparison_operand<'a>(
                 ComparisonOperand::LiteralReal(sign * v)
             },
         ),
-        map(
+        map_res(
             tuple((opt(token!(Operator(Operator::Minus))), token!(Integer(v)))),
-            |(op, v)| {
-                let sign = match op {
-                    None => 1,
-                    Some(()) => -1,
-                };
-                ComparisonOperand::LiteralInteger(sign * (v as i64))
-            },
+            |(op, v)| signed_integer(input, op.is_some(), v).map(ComparisonOperand::LiteralInteger),
         ),
         map(parse_memory_reference, ComparisonOperand::MemoryReference),
     ))(input)
@@ -106,15 +109,9 @@ pub(crate) fn parse_binary_logic_operand<'a>(
     input: ParserInput<'a>,
 ) -> InternalParserResult<'a, BinaryOperand> {
     alt((
-        map(
+        map_res(
             tuple((opt(token!(Operator(Operator::Minus))), token!(Integer(v)))),
-            |(op, v)| {
-                let sign = match op {
-                    None => 1,
-                    Some(()) => -1,
-                };
-                BinaryOperand::LiteralInteger(sign * (v as i64))
-            },
+            |(op, v)| signed_integer(input, op.is_some(), v).map(BinaryOperand::LiteralInteger),
         ),
         map(parse_memory_reference, BinaryOperand::MemoryReference),
     ))(input)
